@@ -328,7 +328,7 @@ def longaxis(seed, count, tag='LONG'):
             yield case(tag + '-wide', cols, big, SCHEMES[k % 2])
 
 
-def repeated(seed, count, tag='REPEATED'):
+def repeated(seed, count, tag='REPEATED', lo=80, hi=500):
     """A small table (3-6 properties, 3-8 distinct rows) with every row repeated 80-500 times:
     large extents with the structure (joint implications, conjunction columns) of a small table."""
     rng = random.Random(f'{seed}/{tag}')
@@ -339,7 +339,7 @@ def repeated(seed, count, tag='REPEATED'):
             base, m = decorate(base, m, rng.choice(['meet_col', 'dup_col', 'full_col', 'meet_row']), rng)
         rows = []
         for r in base:
-            rows += [r] * rng.randint(80, 500)
+            rows += [r] * rng.randint(lo, hi)
         if k % 2:
             rng.shuffle(rows)
         yield case(tag, rows, m, SCHEMES[k % len(SCHEMES)], rng)
@@ -470,7 +470,7 @@ def ctx_stream(tier, seed, *, scale=1.0, with_wide=True, max_rnd=None, with_huge
         if with_wide:
             yield from wide(seed, int(48 * scale))
         yield from manyrows(seed, int(12 * scale))
-        yield from repeated(seed, int(8 * scale))
+        yield from repeated(seed, int(8 * scale), lo=40, hi=150)     # Lindig is ~ |G|^2 per concept
         yield from (c for c in longaxis(seed, 2) if with_wide or len(c['properties']) < 64)
         if with_huge:
             yield from huge(seed, 4)
@@ -486,7 +486,7 @@ def ctx_stream(tier, seed, *, scale=1.0, with_wide=True, max_rnd=None, with_huge
         if with_wide:
             yield from wide(seed, int(1200 * scale))
         yield from manyrows(seed, int(300 * scale))
-        yield from repeated(seed, int(150 * scale))
+        yield from repeated(seed, int(150 * scale), lo=40, hi=220)
         yield from (c for c in longaxis(seed, max(2, int(24 * scale))) if with_wide or len(c['properties']) < 64)
         if with_huge:
             yield from huge(seed, max(2, int(16 * scale)))
